@@ -166,5 +166,15 @@ let () = iter_lines (fun line ->
         Printf.printf "tables %s | %s\n"
           (String.concat "," (List.map (fun (c, v) -> dec_of_n c ^ "=" ^ hexs v) fmt_code))
           (String.concat "," (List.map (fun (k, v) -> hexs k ^ "=" ^ hexs v) colors))
+    | ["hoverj"; ah; cs; ms] ->
+        (* phase 5: HoverEvent with non-nil Contents, JSON form (Model/C17_hover.v) *)
+        let a = bytes_of_hex ah in
+        let c = dec_any (parse p_json cs) in
+        let v = parse p_msg ms in
+        let j = hover_to_json a c v in
+        Printf.printf "hoverj %s | %s\n" (show_json j)
+          (match hover_of_json j with
+           | Some ((a', c'), v') -> Printf.sprintf "ok %s %s %s" (hexs a') (show_json (enc_any c')) (show_msg v')
+           | None -> "err")
     | _ -> Printf.printf "?? %s\n" line
   with Parse e -> Printf.printf "parse-error %s\n" e)
